@@ -39,6 +39,7 @@ type PropSpec struct {
 	MinObl      int           `json:"min_obligations,omitempty"`
 	Mutants     []string      `json:"mutants,omitempty"`
 	Computed    []string      `json:"computed_premises,omitempty"`
+	Ignore      []string      `json:"goals_of_other_properties,omitempty"` // regexps: goal obligations that belong to another property's check
 }
 
 type BoundedSpec struct {
@@ -165,6 +166,7 @@ func runCheck(id, tier, repo, verif string, seed int, writeEv bool) int {
 	var known []string
 	obligations, discharged := 0, 0
 	covers, coversOK := 0, 0
+	ignored := 0
 	carrying := 0
 	samples := []any{}
 	kinds := map[string]int{}
@@ -185,6 +187,16 @@ func runCheck(id, tier, repo, verif string, seed int, writeEv bool) int {
 			continue
 		}
 		skip := false
+		for _, ig := range ps.Ignore {
+			if regexp.MustCompile(ig).MatchString(r.Name) {
+				skip = true
+				ignored++
+				break
+			}
+		}
+		if skip {
+			continue
+		}
 		for i, e := range excl {
 			if e.MatchString(r.Name) {
 				notClaimed = append(notClaimed, fmt.Sprintf("%s [%s] (%s)", r.Name, r.Status, ps.Exclude[i].Reason))
@@ -339,6 +351,7 @@ func runCheck(id, tier, repo, verif string, seed int, writeEv bool) int {
 			"paths":                    res.Paths,
 			"known_findings":           known,
 			"attempted_not_claimed":    notClaimed,
+			"goals_of_other_properties_skipped": ignored,
 			"constant_tables_read_from_source": tables,
 			"goals":                    ps.Goals,
 			"bounded":                  boundedOut,
